@@ -204,9 +204,35 @@ func main() {
 				r.Violation("rpc:absent-id-error-not-notfound", map[string]interface{}{"id": i.String(), "err": fmt.Sprint(err)})
 			}
 		}
+		// identifiers whose chain ids do not fit 16 bits name no stored VAA
+		wide := func(i id) {
+			for _, q := range []struct{ ec, tc uint32 }{{uint32(i.EC) + 65536, uint32(i.TC)}, {uint32(i.EC), uint32(i.TC) + 65536}, {uint32(i.EC) + 131072, uint32(i.TC) + 65536}} {
+				r.Count("lookups", 1)
+				resp, err := pub.GetSignedVAA(ctx, &publicrpcv1.GetSignedVAARequest{MessageId: &publicrpcv1.MessageID{
+					EmitterChain: publicrpcv1.ChainID(q.ec), EmitterAddress: hex.EncodeToString(i.Em[:]), TargetChain: publicrpcv1.ChainID(q.tc), Sequence: i.Seq}})
+				if err == nil && resp != nil && len(resp.VaaBytes) > 0 {
+					r.Violation("rpc:chain-id-above-65535-returns-a-stored-VAA", map[string]interface{}{"stored_id": i.String(), "asked_emitter_chain": q.ec, "asked_target_chain": q.tc})
+				}
+				bresp, err := pub.GetNonGovernanceVAABatch(ctx, &publicrpcv1.GetNonGovernanceVAABatchRequest{EmitterChain: publicrpcv1.ChainID(q.ec), EmitterAddress: hex.EncodeToString(i.Em[:]), TargetChain: publicrpcv1.ChainID(q.tc), Sequences: []uint64{i.Seq}})
+				if err == nil && bresp != nil && len(bresp.Entries) > 0 {
+					r.Violation("batch:chain-id-above-65535-returns-a-stored-VAA", map[string]interface{}{"stored_id": i.String(), "asked_emitter_chain": q.ec, "asked_target_chain": q.tc})
+				}
+				os.Stdout = devnull
+				aresp, err := adm.FindMissingMessages(ctx, &nodev1.FindMissingMessagesRequest{EmitterChain: q.ec, TargetChain: q.tc, EmitterAddress: hex.EncodeToString(i.Em[:])})
+				os.Stdout = realStdout
+				if err == nil && aresp != nil && (aresp.LastSequence != 0 || len(aresp.MissingMessages) > 1) {
+					r.Violation("admin:chain-id-above-65535-scans-another-stream", map[string]interface{}{"stored_id": i.String(), "asked_emitter_chain": q.ec, "asked_target_chain": q.tc, "last": aresp.LastSequence})
+				}
+			}
+		}
 		streams := map[stream]map[uint64]bool{}
+		nWide := 0
 		for i := range model {
 			lookup(i)
+			if nWide < 5 {
+				nWide++
+				wide(i)
+			}
 			st := stream{i.EC, i.Em, i.TC}
 			if streams[st] == nil {
 				streams[st] = map[uint64]bool{}
